@@ -1,6 +1,7 @@
 package props
 
 import (
+	"strings"
 	"testing"
 
 	"github.com/db47h/decimal"
@@ -31,7 +32,7 @@ func genC05(t *rapid.T) C05Case {
 	c := C05Case{M: h.GenMode(t, "zmode")}
 	lim := sqrtPrecLimit()
 	evenExp := func(e int64) int64 { return e - e%2 }
-	shape := rapid.IntRange(0, 11).Draw(t, "shape")
+	shape := rapid.IntRange(0, 12).Draw(t, "shape")
 	if h.Rare(t, "huge", 3000) {
 		// roots of tens of thousands of digits (a few per run): size-gated paths in the Newton iteration and the
 		// multiplications behind it
@@ -98,6 +99,32 @@ func genC05(t *rapid.T) C05Case {
 		c.X = h.SpecOf(x, h.GenPrecFor(t, "xp", len(x.Digits)), h.GenMode(t, "xm"))
 		// the operand's own history (a leftover accuracy from an earlier inexact rounding, zero-padded or over-long
 		// mantissas, stale buffers) must not leak into the exactness decision
+		c.X.Hist = h.GenHist(t, "xh")
+		c.P = uint(p)
+	case shape == 12:
+		// roots a hair away from a power of ten: x = 100^j * (1 +- a*10^-k +- b*10^-m) with the first deviation near or far
+		// beyond the precision, so that the iteration may land on the other side of the power of ten (0.99..9 for a root
+		// just above 1, 1.00..0 for one just below) and the final correction has to step across it (F-35)
+		p := rapid.IntRange(1, 130).Draw(t, "p")
+		k := rapid.IntRange(max(1, p-3), 4*p+45).Draw(t, "k")
+		if rapid.Bool().Draw(t, "newtonk") {
+			// the intermediate precisions of the iteration (17, 32, 62, 122, ...: doubled minus two): a deviation that sits
+			// exactly at one of them is where an intermediate rounding throws the iterate to the other side
+			k = 15<<rapid.IntRange(0, 6).Draw(t, "ki") + 2 + rapid.IntRange(-1, 1).Draw(t, "koff")
+			p = rapid.IntRange(max(1, k/2-4), k).Draw(t, "pk")
+		}
+		x := model.MkFinite(false, "1", 1)
+		dev := model.MkFinite(rapid.IntRange(0, 3).Draw(t, "below") == 0, rapid.OneOf(rapid.Just("5"), rapid.SampledFrom([]string{"25", "1", "2", "4", "6", "49", "51", "9", "15"}), rapid.Custom(func(t *rapid.T) string { return h.GenDigitsN(t, "a", rapid.IntRange(1, 3).Draw(t, "an")) })).Draw(t, "adig"), int64(1-k))
+		x = model.AddX(x, dev).Val
+		if rapid.IntRange(0, 2).Draw(t, "second") > 0 {
+			m := k + rapid.SampledFrom([]int{0, 1, k - 1, k, k + 1}).Draw(t, "mk") + rapid.IntRange(0, 3).Draw(t, "moff")
+			d2 := model.MkFinite(rapid.Bool().Draw(t, "neg2"), h.GenDigitsN(t, "b", rapid.IntRange(1, 2).Draw(t, "bn")), int64(1-m))
+			if y := model.AddX(x, d2).Val; y.Form == model.Finite && !y.Neg {
+				x = y
+			}
+		}
+		x.Exp += 2*int64(rapid.IntRange(-3, 3).Draw(t, "j")) + int64(rapid.SampledFrom([]int{0, 0, 0, 1}).Draw(t, "odd"))
+		c.X = h.SpecOf(x, h.GenPrecFor(t, "xp", len(x.Digits)), h.GenMode(t, "xm"))
 		c.X.Hist = h.GenHist(t, "xh")
 		c.P = uint(p)
 	default:
@@ -200,6 +227,11 @@ func checkC05(c C05Case, o *h.Obs) *h.Fail {
 	cls := model.Classify(ex, uint64(wantPrec))
 	o.Label("root:" + cls)
 	o.Labelf("mode:%v", model.Mode(c.M))
+	if ex.Sticky && ex.Digits == "1" {
+		o.Label("root:hair-above-power-of-ten")
+	} else if uint64(len(ex.Digits)) == refPrec && strings.Trim(ex.Digits, "9") == "" {
+		o.Label("root:hair-below-power-of-ten")
+	}
 	if !ex.Sticky {
 		o.Label("perfect-square")
 		if c.M >= 2 {
@@ -219,7 +251,7 @@ func checkC05(c C05Case, o *h.Obs) *h.Fail {
 	return nil
 }
 
-const ruleC05 = "rapid-generated (x, receiver precision, receiver mode, x's own mode, aliasing): x constructed from its root (x = r^2 with r short, r of p..p+3 digits, or r carrying a tie / all-nines / just-above / just-below pattern at the precision; optionally perturbed by one unit far below), generic word-patterned x up to the precision bound, odd and even exponents over +-2^29, +-0 and +Inf, receiver precision 0, receiver == x, receivers that previously held negative / special / other finite values; exact squares carrying one stray digit far below, placed so that the operand's length is 19j-1..19j+2 digits. Oracle: big.Int.Sqrt of an even-exponent scaling + remainder sticky + reference Round; Prec() and Mode() after == before (precision 0 -> x's). Non-trivial = root inexact at the precision, or perfect square under a directed mode, or x.mode != z.mode. Bound: precision <= 2000 (quick) / 20000 (thorough), plus about one case in 3000 at 19456..65536 digits."
+const ruleC05 = "rapid-generated (x, receiver precision, receiver mode, x's own mode, aliasing): x constructed from its root (x = r^2 with r short, r of p..p+3 digits, or r carrying a tie / all-nines / just-above / just-below pattern at the precision; optionally perturbed by one unit far below), generic word-patterned x up to the precision bound, odd and even exponents over +-2^29, +-0 and +Inf, receiver precision 0, receiver == x, receivers that previously held negative / special / other finite values; exact squares carrying one stray digit far below, placed so that the operand's length is 19j-1..19j+2 digits; operands 100^j*(1 +- a*10^-k +- b*10^-m) whose root is a hair away from a power of ten, k from p-3 to 4p+45. Oracle: big.Int.Sqrt of an even-exponent scaling + remainder sticky + reference Round; Prec() and Mode() after == before (precision 0 -> x's). Non-trivial = root inexact at the precision, or perfect square under a directed mode, or x.mode != z.mode. Bound: precision <= 2000 (quick) / 20000 (thorough), plus about one case in 3000 at 19456..65536 digits."
 
 var propC05 = &h.Prop[C05Case]{ID: "C05", Rule: ruleC05, Gen: genC05, Check: checkC05, Matchers: map[string]func(C05Case) bool{
 	// known finding F-34: receiver precisions within 2 of MaxPrec (the branch without guard digits): the Newton
